@@ -81,26 +81,28 @@ type Conn struct {
 	acceptStep       int
 
 	// knobs
-	Latency          func() time.Duration // per write; nil = 0
-	CutReads         bool                 // let the tape cut what a Read returns
-	SerialMode       bool                 // serial port semantics: own timeout, min read cost
-	PortTimeout      time.Duration
-	TOStyle          TimeoutStyle
-	MinReadCost      time.Duration
-	WriteErr         error // next Write fails with this error ...
-	WriteErrN        int   // ... after accepting this many bytes
-	OnWrite          func(c *Conn, data []byte)
-	OnWriteBegin     func(c *Conn) // called when Write is entered, before it is scheduled
-	PartialWriteAt   int           // >0: the n-th Write on this end is cut short by a stalled peer: some bytes go out, then the write deadline strikes
-	writeCount       int
-	YieldSetDeadline bool                 // SetReadDeadline is a scheduling point too
-	OnReadBegin      func(c *Conn)        // called when Read is entered
-	OnReadEnd        func(c *Conn)        // called when Read returns
-	WriteDelay       func() time.Duration // simulated time a Write takes (slow or back-pressured peer); nil = none
-	OnClose          func(c *Conn)
-	NoYieldWrite     bool
-	EOFWithData      bool // the read that drains the last queued byte before EOF also reports io.EOF
-	TimeoutWithData  bool // some reads that return data also report os.ErrDeadlineExceeded
+	Latency           func() time.Duration // per write; nil = 0
+	CutReads          bool                 // let the tape cut what a Read returns
+	SerialMode        bool                 // serial port semantics: own timeout, min read cost
+	PortTimeout       time.Duration
+	TOStyle           TimeoutStyle
+	MinReadCost       time.Duration
+	WDeadlineErr      error // SetWriteDeadline fails with this error
+	WDeadlineRejected int
+	WriteErr          error // next Write fails with this error ...
+	WriteErrN         int   // ... after accepting this many bytes
+	OnWrite           func(c *Conn, data []byte)
+	OnWriteBegin      func(c *Conn) // called when Write is entered, before it is scheduled
+	PartialWriteAt    int           // >0: the n-th Write on this end is cut short by a stalled peer: some bytes go out, then the write deadline strikes
+	writeCount        int
+	YieldSetDeadline  bool                 // SetReadDeadline is a scheduling point too
+	OnReadBegin       func(c *Conn)        // called when Read is entered
+	OnReadEnd         func(c *Conn)        // called when Read returns
+	WriteDelay        func() time.Duration // simulated time a Write takes (slow or back-pressured peer); nil = none
+	OnClose           func(c *Conn)
+	NoYieldWrite      bool
+	EOFWithData       bool // the read that drains the last queued byte before EOF also reports io.EOF
+	TimeoutWithData   bool // some reads that return data also report os.ErrDeadlineExceeded
 
 	Rec      []IORec
 	RecLimit int
@@ -548,8 +550,12 @@ func (c *Conn) SetReadDeadline(t time.Time) error {
 }
 func (c *Conn) SetWriteDeadline(t time.Time) error {
 	c.lock()
+	defer c.unlock()
+	if c.WDeadlineErr != nil {
+		c.WDeadlineRejected++
+		return c.WDeadlineErr
+	}
 	c.wdl = t
-	c.unlock()
 	return nil
 }
 
